@@ -322,6 +322,67 @@ def ovfchk_rule(chk, db):
         chk.analysis_broken("OVFCHK: no accumulating parse loop found in _strings/to_integer.hpp")
 
 
+def ovfconst_rule(chk, db):
+    """OVFCONST: the overflow checkers compare with limit / base and |limit % base| - the only thresholds for which
+    `value > q or (value == q and digit > r)` is exactly "value * base + digit does not fit" (for the signed checker the
+    accumulator is negative: min / base and |min % base|). Decided on the arithmetic skeleton of the initialisers."""
+    def sk(e):
+        e = astx.strip_casts(e)
+        if e is None:
+            return None
+        k = e.get("k")
+        if k in ("initlist", "construct", "parenlist") and len(e.get("a", [])) == 1:
+            return sk(e["a"][0])
+        if k == "paren":
+            return sk(e.get("e"))
+        if k == "call":
+            nm = astx.callee(e)[0]
+            if nm in ("max", "min", "lowest") and not e["a"]:
+                return "max" if nm == "max" else "min"
+            if nm == "abs" and len(e["a"]) == 1:
+                return ("abs", sk(e["a"][0]))
+            return None
+        if k in ("mem", "ref") and "base" in (e.get("n") or "").lower():
+            return "base"
+        if k == "un" and e["op"] == "-":
+            return ("neg", sk(e["e"]))
+        if k == "bin" and e["op"] in ("/", "%", "+", "-", "*"):
+            return (e["op"], sk(e["l"]), sk(e["r"]))
+        if astx.int_value(e) is not None:
+            return astx.int_value(e)
+        return None
+    spec = {"unsigned_overflow_checker": ("max", ("/", "max", "base"), [("%", "max", "base")]),
+            "signed_overflow_checker": ("min", ("/", "min", "base"), [("abs", ("%", "min", "base")), ("neg", ("%", "min", "base"))])}
+    n = 0
+    for rq, (lim, wdiv, wmods) in spec.items():
+        rec = db.record("etl::strings::detail::" + rq)
+        if rec is None:
+            chk.analysis_broken("OVFCONST: %s no longer exists" % rq)
+            continue
+        n += 1
+        construct = "etl::strings::detail::" + rq
+        chk.instance("OVFCONST")
+        div = [fd for fd in rec["fields"] if "div" in fd["n"].lower() and "nsdmi" in fd]
+        mod = [fd for fd in rec["fields"] if "mod" in fd["n"].lower() and "nsdmi" in fd]
+        bad = None
+        unknown = None
+        if len(div) != 1 or len(mod) != 1:
+            unknown = "the quotient / remainder thresholds are not two members with default initialisers"
+        else:
+            d_, m_ = sk(div[0]["nsdmi"]), sk(mod[0]["nsdmi"])
+            if d_ != wdiv:
+                bad = (div[0], d_, wdiv)
+            elif m_ not in wmods:
+                bad = (mod[0], m_, wmods[0])
+        chk.obligation("OVFCONST", construct, False if bad else (None if unknown else True))
+        if bad:
+            chk.violation("OVFCONST", construct, "threshold", "include/etl/%s:%s: `%s` is initialised with %s; the exact threshold is %s" % (
+                rec["file"], bad[0]["line"], bad[0]["n"], bad[1], bad[2]), {"where": rec["file"]})
+        elif unknown:
+            chk.unknown_instance("OVFCONST", construct, unknown)
+    return n
+
+
 def sign_rule(chk, db):
     """SIGN: a formatting kernel that can emit '-' emits it on every path on which the value may be negative (std::to_chars
     writes the sign for every base). Facts come from the tests on the path: `v < 0` false or an unsigned type excuse it."""
@@ -399,6 +460,7 @@ def run(chk, tier):
     sign_rule(chk, db)
     castsign_rule(chk, db)
     ovfchk_rule(chk, db)
+    ovfconst_rule(chk, db)
     chk.assumptions += [
         "digits produced, values parsed, round trips and overflow detection at the type's limits are run-time values and are "
         "not decided by these clauses",
